@@ -41,6 +41,9 @@ CHECKS = {
  "C01": (EX, "exhaustive enumeration of a boundary lattice of every OpenFlow 1.0 / Nicira codec object (field values within k deviations of a fingerprint base vector, action and entry lists, every payload length) against an independent transcription of the specification's layouts",
          "For 95 codec kinds (22 messages, actions, stats request/reply bodies, phy_port, queues, match, nx_* messages/actions, NXM entries with and without mask): header length == bytes == len(obj); bytes == reference encoding field by field; unpack_new and the dispatch table consume exactly the length (also before trailing garbage) and return an equal object; re-encoding reproduces the bytes. Exhaustive over the stated finite lattice.",
          "Trusts mc/refs/ofspec.py (written from the OpenFlow 1.0 specification and nicira-ext.h, sizes checked against OFP_ASSERT values); matches restricted to prerequisite-consistent ones; output.max_len normalisation and all-ones NXM masks treated as documented.", "DESIGN.md 4 C01"),
+ "C17": (MC, "explicit-state BFS to closure over port-status histories on a real Connection (every reachable (_ports,_masks) state expanded once) plus exhaustive enumeration of multipart compositions and interleavings, all fed as spec-encoded bytes through Connection.read()",
+         "Port view: the reachable state set over 4 port numbers x 3-4 descriptions closes, so the result holds for histories of any length; in every state len/keys/iteration/values/items/in/[]/get by every number, name and hardware address of the universe and original_ports are compared with a plain dict. Multipart: FLOW/TABLE/PORT/QUEUE bodies of <=3 (quick) / <=4 entries in every composition of <=6 parts, coalesced reads, interleaved with other messages at every position and with a second request's reply before, after and in the middle; the aggregated event must fire once, after the final part, with exactly the reply's entries in order.",
+         "Reference = dict / list models in mc/props/c17.py; stats encoders in mc/refs/ofwire_stats.py; replies sharing xid and type are not distinguishable and not judged.", "DESIGN.md 4 C17"),
 }
 
 PENDING_REASON = "check under construction in this round (design in DESIGN.md section 4); not claimed until its harness is committed and silent on the unchanged tree"
